@@ -30,4 +30,5 @@ def run(ctx, rep):
     operators.rule_log_poles(ctx, rep, "C18-R11")
     builtins.rule_signed_number_text(ctx, rep, "C18-R12")
     builtins.rule_same_function_two_names(ctx, rep, "C18-R13")
+    builtins.rule_ulp_of_the_whole_number(ctx, rep, "C18-R15")
     textparse.rule_host_pattern_end_anchor(ctx, rep, "C18-R14", modules=("context", "values"), only=lambda q: _in_family(q) or q.startswith("values:to_number") or q.startswith("values:parse_float"))
